@@ -262,6 +262,27 @@ def proof_status(prop, build):
     return st
 
 
+def coqchk_status(prop):
+    """thorough tier: re-check the compiled property file and everything it depends on with the independent
+    checker coqchk and read the axioms it lists"""
+    cmd = "timeout 3000 coqchk -silent -o $(grep -v '^-arg' _CoqProject | tr '\\n' ' ') TW.%s 2>&1" % prop
+    t0 = time.time()
+    rc, out = sh(cmd, cwd=COQ)
+    axioms = []
+    grab = False
+    for line in out.splitlines():
+        if line.startswith("* Axioms:"):
+            grab = True
+            continue
+        if line.startswith("* "):
+            grab = False
+        if grab and line.strip() and line.strip() != "<none>":
+            axioms.append(line.strip())
+    res = {"rc": rc, "axioms": axioms, "wall_s": round(time.time() - t0, 1), "cmd": "coqchk -silent -o <project paths> TW.%s" % prop,
+           "unsafe": [l.strip() for l in out.splitlines() if ("type-in-type" in l or "unsafe" in l or "positivity" in l) and "<none>" not in l]}
+    return res
+
+
 # ----------------------------------------------------------------------------- running cases
 
 def run_cases(lines, tag, timeout_ms=3000, jobs=16, binary="twharness", extra_env=None):
@@ -391,6 +412,18 @@ def main():
     for h in pst["hygiene"]:
         broken.append("hygiene: " + h)
 
+    chk = None
+    if tier == "thorough" and pst["exists"] and not pst["broken"]:
+        chk = coqchk_status(prop)
+        short = set(a.split(".")[-1] for a in ALLOWED_AXIOMS)
+        if chk["rc"] != 0:
+            broken.append("coqchk: the independent checker rejects Properties/%s.vo or a dependency (rc %d)" % (prop, chk["rc"]))
+        for a in chk["axioms"]:
+            if a.split(".")[-1] not in short:
+                broken.append("coqchk: axiom outside the allow-list: " + a)
+        for u in chk["unsafe"]:
+            broken.append("coqchk: " + u)
+
     known = [k for k in load_known_findings() if k["property"] == prop and k.get("status") == "open"]
 
     # ---- correspondence + oracle on the tier's cases
@@ -476,6 +509,7 @@ def main():
             "trusted_base": TRUSTED_BASE + spec.trusted_extra,
             "theorems": pst["theorems"], "axioms_reported": pst["axioms"],
             "closed_under_global_context": pst.get("closed", 0),
+            "coqchk": chk if chk is not None else "thorough tier only",
             "evaluations": len(results), "distinct_nontrivial": len(distinct),
             "rule": spec.rule, "samples": samples, "exhaustive": bool(meta.get("exhaustive", False)),
             "correspondence": {"same": stats["same"], "different": stats["DIFF"], "unmodelled": stats["unmodelled"]},
